@@ -107,6 +107,9 @@ func constraintMenu() []wlItem {
 			p.Spec.NodeSelector = map[string]string{lblZone: "b"}
 		})}},
 		{"run-db-n1", world.WL{Queue: "qb", Pods: constrPods(1, world.StRunning, "n1", withLabels(db, nil))}},
+		// a matching pod that still runs on a node that takes no new pods (n2 is NotReady in one layout): it
+		// counts for the (anti-)affinity of pods placed elsewhere in its zone
+		{"run-db-n2", world.WL{Queue: "qb", Pods: constrPods(1, world.StRunning, "n2", withLabels(db, nil))}},
 		{"run-db-anti-web-zone-n2", world.WL{Queue: "qb", Pods: constrPods(1, world.StRunning, "n2", withLabels(db, antiAffinity("web", lblZone)))}},
 		{"run-web-anti-web-host-n1", world.WL{Queue: "qb", Pods: constrPods(1, world.StRunning, "n1", withLabels(web, antiAffinity("web", "kubernetes.io/hostname")))}},
 		{"run-plain-n1-qb", world.WL{Queue: "qb", Pods: constrPods(1, world.StRunning, "n1", nil)}},
